@@ -78,11 +78,13 @@ func Create(filename string, archiveInfoList []ArchiveInfo, aggregationMethod Ag
 
 	fileSize := h.ExpectedFileSize()
 	if err := w.file.Truncate(fileSize); err != nil {
+		w.file.Close()
 		return nil, err
 	}
 	w.fileBuf = filebuffer.New(w.file, fileSize, w.pageSize)
 
 	if err := w.putHeader(); err != nil {
+		w.file.Close()
 		return nil, err
 	}
 	return w, nil
@@ -108,13 +110,19 @@ func Open(filename string, opts ...Option) (*Whisper, error) {
 
 	st, err := w.file.Stat()
 	if err != nil {
+		w.file.Close()
 		return nil, fmt.Errorf("stat: %s: %s", filename, err)
 	}
 
 	w.fileBuf = filebuffer.New(w.file, st.Size(), w.pageSize)
 
-	if err := w.readHeader(); err != nil {
+	if err := w.readHeader(st.Size()); err != nil {
+		w.file.Close()
 		return nil, fmt.Errorf("readHeader: %s: %s", filename, err)
+	}
+	if st.Size() < w.header.ExpectedFileSize() {
+		w.file.Close()
+		return nil, fmt.Errorf("open: %s: file size %d is smaller than %d expected from the header", filename, st.Size(), w.header.ExpectedFileSize())
 	}
 	return w, nil
 }
@@ -417,7 +425,7 @@ func (w *Whisper) putHeader() error {
 	return nil
 }
 
-func (w *Whisper) readHeader() error {
+func (w *Whisper) readHeader(fileSize int64) error {
 	buf := make([]byte, w.pageSize)
 	if _, err := w.fileBuf.ReadAt(buf[:metaSize], 0); err != nil {
 		return err
@@ -431,6 +439,9 @@ func (w *Whisper) readHeader() error {
 		}
 
 		wantSize := werr.WantedBufSize
+		if int64(wantSize) > fileSize {
+			return fmt.Errorf("header of %d bytes does not fit in the file of %d bytes", wantSize, fileSize)
+		}
 		if wantSize > len(buf) {
 			buf = make([]byte, wantSize)
 		}
